@@ -264,16 +264,19 @@ class VDateTime(_dt.datetime):
         n = Clock.now
         return cls(n.year, n.month, n.day, n.hour, n.minute, n.second, n.microsecond)
 
+    # the machine's local zone is not UTC: a naive now()/today() differs from utcnow() as it does on a real machine
+    LOCAL_OFFSET = _dt.timedelta(hours=5, minutes=30)
+
     @classmethod
     def now(cls, tz=None):
         n = cls.utcnow()
         if tz is None:
-            return n
+            return n + cls.LOCAL_OFFSET
         return n.replace(tzinfo=_dt.timezone.utc).astimezone(tz)
 
     @classmethod
     def today(cls):
-        return cls.utcnow()
+        return cls.utcnow() + cls.LOCAL_OFFSET
 
 
 class _DatetimeModule:
